@@ -138,7 +138,7 @@ func ruleArmedAfterAdd(c *Ctx, rule string) {
 		}
 		return false
 	}
-	n := 0
+	n, skipped := 0, 0
 	for _, s := range p.CallSitesOf(m.add) {
 		if p.IsTestSupport(s.Fn) {
 			continue
@@ -146,6 +146,18 @@ func ruleArmedAfterAdd(c *Ctx, rule string) {
 		r := eng.Root(s.Fn)
 		if r.Signature.Recv() != nil && eng.TypeName(r.Signature.Recv().Type()) == m.mapT {
 			continue // the table's own wrappers
+		}
+		// judged where creation and write share a function; when Add sits in a helper that hands the association back, the
+		// caller's branches on the helper's other results would need path-sensitivity (a nil error after a successful Add)
+		hasWrite := false
+		for _, cl := range eng.Calls(s.Fn) {
+			if isWrite(cl) {
+				hasWrite = true
+			}
+		}
+		if !hasWrite {
+			skipped++
+			continue
 		}
 		n++
 		f := s.Fn
@@ -169,7 +181,7 @@ func ruleArmedAfterAdd(c *Ctx, rule string) {
 					// a helper that creates the association and hands it back: the write may follow in its callers
 					g := b.Parent()
 					var sites []eng.Site
-					if d < 2 && g.Parent() == nil {
+					if false && d < 2 && g.Parent() == nil {
 						for _, cs := range p.CallSitesOf(g) {
 							if _, isCall := cs.Ins.(*ssa.Call); isCall && !p.IsTestSupport(cs.Fn) {
 								sites = append(sites, cs)
@@ -203,7 +215,8 @@ func ruleArmedAfterAdd(c *Ctx, rule string) {
 		after(s.Ins, 0)
 		c.CheckAt(rule, short(f)+":association-armed-on-every-path-after-Add", s.Ins, leak == "", "after the association has been created (and its reply goroutine started) the per-datagram code can return without writing through it (return at "+leak+"): only a write sets the read deadline, so this association never expires, its socket is never closed and its removal is never reported")
 	}
-	c.Floor(rule, "association creations outside the table's own methods", n, 1)
+	c.Floor(rule, "association creations outside the table's own methods", n+skipped, 1)
+	c.Note("armed_after_add", map[string]int{"judged": n, "creation_in_a_helper_without_the_write_not_judged": skipped})
 }
 
 // mustWrite: every path of h from entry to a return passes a call of w (depth-limited through static repo callees).
@@ -359,7 +372,9 @@ func ruleCommitAfterStart(c *Ctx, ra *reloadAnchors, rule string) {
 			}
 		}
 	}
-	c.Floor(rule, "stores to the server object in the reload function", n, 1)
+	// no floor: a reload function that commits through a helper method (swap(stop)) has no direct store; the helper's call is
+	// then judged by KEEPOLD's own clause on the stop-function field
+	c.Note("server_state_stores_in_reload_function", n)
 }
 
 // ruleKeyNotCachedBySecret (seed C03-u2): "authenticated with a configured key" — the encryption key put into an entry is
